@@ -723,12 +723,22 @@ Proof.
     destruct (new_random_id (unavail (smgr s)) (stape s) 0) as [[[[i u'] t'] d]|] eqn:E; [|discriminate].
     apply new_random_id_spec in E. destruct E as (Hn & Hu & _).
     destruct c; intros X; inversion X; subst; simpl; auto. }
-  destruct o as [t|raw|req k|i|i|i|i| |n]; simpl in H.
+  destruct o as [t|raw|req k|req k opts|i|i|i|i| |n]; simpl in H.
   - destruct t; try (eapply AF; eauto; fail); inversion H.
   - eapply AF; eauto.
   - destruct req as [i|]; [|eapply AF; eauto].
     destruct (mem i (unavail (smgr s))) eqn:M; inversion H; subst. simpl.
     split; auto. intros Hc. apply mem_In in Hc. congruence.
+  - (* AddKeyWithOpts *)
+    destruct (apply_opts req _ opts) as [p|]; [|inversion H].
+    destruct (status_eqb (p_st p) UnknownStatus); [inversion H|].
+    destruct (p_prim p && negb (status_eqb (p_st p) Enabled)); [inversion H|].
+    destruct (p_has p).
+    + destruct (mem (p_fixed p) (unavail (smgr s))) eqn:M; inversion H; subst. simpl.
+      split; auto. intros Hc. apply mem_In in Hc. congruence.
+    + destruct (new_random_id (unavail (smgr s)) (stape s) 0) as [[[[i u'] t'] d]|] eqn:E; [|inversion H].
+      apply new_random_id_spec in E. destruct E as (Hn & Hu & _).
+      inversion H; subst; simpl; auto.
   - destruct (find_entry _ i); [destruct (status_eqb _ _)|]; inversion H.
   - destruct (find_entry _ i); [destruct (_ || _)|]; inversion H.
   - destruct (find_entry _ i) as [e|]; [destruct (eprim e); [|destruct (_ || _)]|]; inversion H.
